@@ -54,12 +54,12 @@ def workdir(pid):
 # ---------------------------------------------------------------------------
 # TLC model checking of a configuration
 
-def tlc_mc(module, cfg, wd, workers=8, timeout=1500, heap="6g", extra="", simulate=None):
+def tlc_mc(module, cfg, wd, workers=8, timeout=1500, heap="6g", extra="", simulate=None, coverage=False):
     """Run TLC on spec/<module>.tla with spec/<cfg>. Returns dict(states, distinct, ok, out)."""
-    meta = f"{wd}/meta-{cfg}"
+    meta = f"{wd}/meta-{cfg.replace('/', '_')}"
     mode = f"-simulate num={simulate[0]} -depth {simulate[1]}" if simulate else ""
     cmd = (f"timeout {timeout} java -Xmx{heap} -Xss64m -XX:+UseParallelGC -cp {JAR} tlc2.TLC -workers {workers} "
-           f"-metadir {meta} -cleanup -noGenerateSpecTE -coverage 1 {mode} {extra} -config {cfg} {module}.tla")
+           f"-metadir {meta} -cleanup -noGenerateSpecTE {'-coverage 1' if coverage else ''} {mode} {extra} -config {cfg} {module}.tla")
     t = time.time()
     rc, out = sh(cmd, cwd=SPEC, timeout=timeout + 60)
     shutil.rmtree(meta, ignore_errors=True)
